@@ -42,7 +42,7 @@ CHECKS = {
    "6.2"),
  "C01": (True, "chanfsm", "model_checking",
    "replay-based explicit-state BFS over the real ChannelHandler/Channel with a ghost reference monitor (closes under a counter cap)",
-   "All request histories of one channel over ~45 letters (GetPerCommitmentPoint[2], ValidateCommitmentTx[2] with valid/invalid/other-content signatures, RevokeCommitmentTx, SignLocalCommitmentTx2, SignCommitmentTx, core get_per_commitment_secret[_or_none], revoke_previous_holder_commitment, activate, recovery/redundant signing, mutual close, restart) at commitment numbers relative to the live counters, for protocol versions 4, 5, 6, until the canonical state set closes. A ghost monitor scans every reply for the channel's BOLT-3 secrets and requires an earlier accepted validate of n+1 with signatures valid by construction.",
+   "All request histories of one channel over ~45 letters (GetPerCommitmentPoint[2], ValidateCommitmentTx[2] with valid / invalid / other-content / too few / previous-number signatures, RevokeCommitmentTx, SignLocalCommitmentTx2, SignCommitmentTx, core get_per_commitment_secret[_or_none], revoke_previous_holder_commitment, activate, recovery/redundant signing, mutual close, restart) at commitment numbers relative to the live counters, for protocol versions 4, 5, 6, under the simple and the on-chain validator, until the canonical state set closes. A ghost monitor scans every reply for the channel's BOLT-3 secrets and requires an earlier accepted validate of n+1 with signatures valid by construction.",
    "Counter cap k (2 quick / 3 thorough): states beyond the cap are terminal. Counterparty signatures are produced by the harness over LDK-built transactions assembled from the setup. secp256k1/LDK key derivation trusted.",
    "3.1"),
  "C02": (True, "chanfsm", "model_checking",
@@ -72,12 +72,12 @@ CHECKS = {
    "7.1"),
  "C04": (True, "c04", "model_checking",
    "bounded exhaustive enumeration: setup variants x contents, both entry points on twin worlds, every single (thorough: pair of) field mutation of the raw transaction, witness scripts and semantic arguments on a fresh real signer; oracle = harness-assembled BOLT-3 transaction + secp256k1 verification",
-   "24 (20 quick) setup variants (commitment type, direction, delay pair inside and on both edges of the policy range, funding outpoint) x 7-8 contents (no HTLC, offered, received, two identical received, both, HTLC just above / below the trim limit, three HTLCs): the semantic entry point signs and every commitment / HTLC signature is verified against the transaction the harness assembles from the setup, the basepoints and the content; the raw entry point must accept that transaction on a twin signer and return the same signature; then every mutation (version, locktime, sequence, prevout txid/vout, input witness / script_sig, each output value +-1/+1000, script byte flips and truncation, swapped / dropped / duplicated / extra outputs, extra input, witness-script flips / removal / swaps, fee rate, commitment number, per-commitment point, HTLC list edits) is presented to the raw entry point: acceptance requires byte equality with the canonical transaction of the content the presented arguments imply and a signature that verifies against it.",
+   "24 (20 quick) setup variants (commitment type, direction, delay pair inside and on both edges of the policy range, funding outpoint) x 7-8 contents (no HTLC, offered, received, two identical received, both, HTLC just above / below the trim limit, a small HTLC at a low claimed fee rate, three HTLCs): the semantic entry point signs and every commitment / HTLC signature is verified against the transaction the harness assembles from the setup, the basepoints and the content; the raw entry point must accept that transaction on a twin signer and return the same signature; then every mutation (version, locktime, sequence, prevout txid/vout, input witness / script_sig, each output value +-1/+1000, script byte flips and truncation, swapped / dropped / duplicated / extra outputs, extra input, witness-script flips / removal / swaps, fee rate, commitment number, per-commitment point, HTLC list edits) is presented to the raw entry point: acceptance requires byte equality with the canonical transaction of the content the presented arguments imply and a signature that verifies against it.",
    "Canonical transaction built with LDK's BOLT-3 builder from parameters assembled by the harness (not Channel's helpers); LDK and secp256k1 trusted. Panics of the signer (outputs above the channel value) are counted, not treated as acceptance.",
    "4.1"),
  "C05": (True, "c05", "model_checking",
    "deviation-bounded exhaustive enumeration (d=1 quick, d=2 thorough on the tight policy) of requests on fresh real signers, under checked and wrapping arithmetic, against an independent u128 reference predicate (accepted => within all bounds)",
-   "Bases: 3 policies (default, tight with small distinct bounds, huge channel sizes) x simple / on-chain validator x chain-state use on/off x commitment type x direction x entry point (setup_channel, sign_counterparty_commitment_tx_phase2, validate_holder_commitment_tx_phase2 with harness-made valid signatures) x commitment number 0 / 1. Deviations: commitment type, both delays around the policy range, channel value around the maximum, push value, claimed fee rate, each balance at dust edges / at the values that put the implied fee rate at min-1..max+2 / at 2^32- and 2^64-wrap candidates, added HTLCs at both trim limits, around the in-flight cap and 2^63, HTLC counts around the cap, expiries around height+delay and 500000000, funding depth / close seen, commitment number. Further bases put the other side one commitment ahead while the funding is confirmed (and disconnect the funding block again for depth 0). Every case is executed on a fresh signer (blocks fed through the tracker for the on-chain validator) and the reference predicate is evaluated independently; after a refused setup the slot must still be a stub and the identical request must be refused again, otherwise the case counts as accepted.",
+   "Bases: 3 policies (default, tight with small distinct bounds, huge channel sizes) x simple / on-chain validator x chain-state use on/off x commitment type x direction x entry point (setup_channel, sign_counterparty_commitment_tx_phase2, validate_holder_commitment_tx_phase2 with harness-made valid signatures) x commitment number 0 / 1. Deviations: commitment type, both delays around the policy range, channel value around the maximum, push value, claimed fee rate, each balance at dust edges / at the values that put the implied fee rate at min-1..max+2 / at 2^32- and 2^64-wrap candidates, added HTLCs at both trim limits, around the in-flight cap and 2^63, an existing HTLC raised to the cap's edge, HTLC counts around the cap, expiries around height+delay and 500000000, funding depth / close seen, commitment number. Further bases put the other side one commitment ahead while the funding is confirmed (and disconnect the funding block again for depth 0). Every case is executed on a fresh signer (blocks fed through the tracker for the on-chain validator) and the reference predicate is evaluated independently; after a refused setup the slot must still be a stub and the identical request must be refused again, otherwise the case counts as accepted.",
    "Only accepted-and-outside-a-bound is a violation (the signer may be stricter). The claimed feerate is constrained through the trim limit only, as in the code.",
    "4.2"),
  "C07": (True, "c07", "model_checking",
